@@ -938,7 +938,10 @@ str_case_cmp (char *a, char *b)
   COPY_PTR (&s1, a);
   COPY_PTR (&s2, b);
 
-  return (int)(s1 - s2);
+  /* the difference of two pointers does not fit the int result; f_switch() compares them as intptr_t */
+  if (s1 == s2)
+    return 0;
+  return ((intptr_t) s1 < (intptr_t) s2) ? -1 : 1;
 }				/* str_case_cmp() */
 
 static void
